@@ -534,8 +534,9 @@ class FakeContext:
     def RLock(self): return FakeLock()
     def Semaphore(self, value=1): return FakeSemaphore(value)
     def BoundedSemaphore(self, value=1): return FakeSemaphore(value)
-    def RawArray(self, ctype, init): return FakeArray(ctype, init)
-    def Array(self, ctype, init, lock=True): return FakeArray(ctype, init)
+    ARRAY_CLS = None      # a check may plant a monitored subclass of FakeArray here
+    def RawArray(self, ctype, init): return (self.ARRAY_CLS or FakeArray)(ctype, init)
+    def Array(self, ctype, init, lock=True): return (self.ARRAY_CLS or FakeArray)(ctype, init)
 
     def Pipe(self, duplex=True):
         if duplex: raise SchedError('duplex pipes are not modelled')
